@@ -71,8 +71,9 @@ let check (case : Sexp.t) (res : Sexp.t) : [ `Ok | `Mismatch of string | `Proper
           recorded finding D9: while the rewritten program was checked, `open` copied an unsolved hole (the type
           of a group whose body's type is still a hole), so a later constraint solved the copy *)
        let opened = (match rest with [ L (A "hooks" :: oh :: _) ] -> int oh | _ -> 0) in
+       let local = (match rest with [ L [ A "hooks"; _; _; _; _; lh ] ] -> int lh | _ -> 0) in
        let sg = if has_hole_sx tya && (tag = "name-subexpression-with-hole") then " sig=D15-named-subexpression-with-hole"
-         else if opened > 0 then " sig=D9-hole-copied-by-open" else "" in
+         else Evalcommon.hole_sig ~opened ~local in
        (`Property ("the rewrite (" ^ tag ^ ") turns acceptance into rejection" ^ sg), true)
      | L (A "rejected" :: _), L [ A "accepted"; _; _ ] -> (`Property ("the rewrite (" ^ tag ^ ") turns rejection into acceptance"), true)
      | _ -> (`Mismatch "unrecognised pair", false))
